@@ -10,6 +10,7 @@
 //! the number of distinct certificate assets (printed in the rule text).
 use std::collections::{BTreeMap, BTreeSet};
 use std::panic::{catch_unwind, AssertUnwindSafe};
+use std::str::FromStr;
 use std::sync::{Arc, Mutex, OnceLock};
 
 use sozu_command_lib::certificate::{
@@ -136,6 +137,55 @@ fn names_field(ns: &[Vec<u8>]) -> String {
         ns.iter().map(|n| hx(n)).collect::<Vec<_>>().join(",")
     }
 }
+/// A fingerprint as the op lines carry it: `<id>[:L|U|M]` = the hex text of
+/// certificate `id` in lower / UPPER / mixed case (the same decoded bytes, so the
+/// same certificate for the model and the reference), `x:e` = empty text (decodes
+/// to the empty fingerprint, which no certificate has), `x:o` odd length, `x:n` /
+/// `x` not hex (do not decode).
+struct FpRef {
+    /// the certificate the decoded bytes designate, if any
+    id: Option<usize>,
+    /// the text put in `old_fingerprint` / `RemoveCertificate.fingerprint`
+    text: String,
+    /// `hex::decode(text)` succeeds
+    decodes: bool,
+}
+
+fn fp_ref(tok: &str) -> Option<FpRef> {
+    let (head, enc) = tok.split_once(':').unwrap_or((tok, "L"));
+    if head == "x" {
+        return Some(match enc {
+            "e" => FpRef { id: None, text: String::new(), decodes: true },
+            "o" => FpRef { id: None, text: assets().certs[0].fp.to_string()[..7].to_string(), decodes: false },
+            _ => FpRef { id: None, text: "not-hex-zz".into(), decodes: false },
+        });
+    }
+    let id: usize = head.parse().ok()?;
+    let lower = assets().certs.get(id)?.fp.to_string();
+    let text = match enc {
+        "U" => lower.to_ascii_uppercase(),
+        "M" => lower
+            .chars()
+            .enumerate()
+            .map(|(i, c)| if i % 2 == 0 { c.to_ascii_uppercase() } else { c })
+            .collect(),
+        _ => lower,
+    };
+    Some(FpRef { id: Some(id), text, decodes: true })
+}
+
+/// the token for certificate `id` in a random hex spelling
+fn fp_tok(rng: &mut Rng, id: usize) -> String {
+    match rng.below(8) {
+        0 | 1 => format!("{id}:U"),
+        2 | 3 => format!("{id}:M"),
+        _ => id.to_string(),
+    }
+}
+fn bad_fp_tok(rng: &mut Rng) -> String {
+    rng.pick(&["x", "x:e", "x:o", "x:n"]).to_string()
+}
+
 fn parse_names(w: &str) -> Vec<Vec<u8>> {
     if w == "_" {
         vec![]
@@ -648,7 +698,7 @@ impl Area for Tls {
         let a = assets();
         format!(
             "histories of add/remove/replace (real replace_certificate, and its two halves with a probe between) on the real CertificateResolver, \
-             certificates = {} distinct PEM assets of /repo (= distinct fingerprints available; overriding names/expired_at does not change the fingerprint, checked at start-up) with overridden names drawn from a per-case universe of overlapping exact/wildcard/mixed-case/trailing-dot/embedded-star names over 1-2 base domains and expirations from a small set (ties frequent), 2-6 fingerprints per case so re-adds, idempotent replaces, absent/unparsable old fingerprints and failing PEMs occur; 8% of cases carry a malformed name (empty, '.', leading dot, '/' segments); \
+             certificates = {} distinct PEM assets of /repo (= distinct fingerprints available; overriding names/expired_at does not change the fingerprint, checked at start-up) with overridden names drawn from a per-case universe of overlapping exact/wildcard/mixed-case/trailing-dot/embedded-star names over 1-2 base domains and expirations from a small set (ties frequent), 2-6 fingerprints per case so re-adds, idempotent replaces, absent/unparsable old fingerprints and failing PEMs occur; every fingerprint a replace / remove carries is spelled in lower-, UPPER- or mixed-case hex (same decoded bytes = same certificate for model and reference), or is empty / odd-length / not hex; 8% of cases carry a malformed name (empty, '.', leading dot, '/' segments); \
              after every op a grid of <=12 server names (exact, wildcard-covered, apex, deeper, upper case, trailing dot) is probed through domain_lookup(wildcard/exact), get_certificate and names_for_sni, and 1-2 grid names through a real in-memory rustls handshake against MutexCertificateResolver::resolve; route ops replicate the https.rs snapshot + route_from_request gate over the hook predicates; 20% of cases are batches of (authority, sni, names) through the two hook predicates; \
              non-trivial = a case in which two loaded certificates shared a name or an exact and a wildcard name competed for a probe, followed by a remove/replace (or a predicate batch with both verdicts); distinct = distinct op sequence",
             a.certs.len()
@@ -691,6 +741,21 @@ impl Area for Tls {
                 format!("rm 1"),
                 "addbad".to_string(),
                 "replbad 1".to_string(),
+            ]),
+            // the fingerprint text is hex in either case: idempotent replace / remove spelled in upper or mixed case
+            s(vec![
+                format!("new {www} {apex}"),
+                format!("add 0 100 {www},{apex}"),
+                format!("repl 0:U 0 100 {www},{apex}"),
+                format!("repl 0:M 0 100 {www},{apex}"),
+                format!("replsplit 0:U 0 100 {www}"),
+                format!("add 1 50 {www}"),
+                format!("rm x:n"),
+                format!("rm x:o"),
+                format!("rm x:e"),
+                format!("repl x:e 2 10 {apex}"),
+                format!("rm 0:U"),
+                format!("rm 1:M"),
             ]),
             // duplicate name inside one certificate, replace by a certificate that drops a name
             s(vec![
@@ -781,8 +846,12 @@ impl Area for Tls {
                 reference.add(id, &names, exp);
             } else if r < 58 {
                 let id = if !stored.is_empty() && rng.chance(5, 6) { *rng.pick(&stored) } else { fresh(rng) };
-                ops.push(format!("rm {id}"));
-                reference.remove(id);
+                if rng.chance(1, 12) {
+                    ops.push(format!("rm {}", bad_fp_tok(rng)));
+                } else {
+                    ops.push(format!("rm {}", fp_tok(rng, id)));
+                    reference.remove(id);
+                }
             } else if r < 82 {
                 let split = rng.chance(1, 2);
                 let old: Option<usize> = match rng.below(12) {
@@ -822,7 +891,10 @@ impl Area for Tls {
                     _ => pick_names(rng, &uni),
                 };
                 let exp = *rng.pick(&exps);
-                let olds = old.map(|o| o.to_string()).unwrap_or_else(|| "x".into());
+                let olds = match old {
+                    Some(o) => fp_tok(rng, o),
+                    None => bad_fp_tok(rng),
+                };
                 ops.push(format!("{} {olds} {id} {exp} {} -", if split { "replsplit" } else { "repl" }, names_field(&names)));
                 reference.replace(old, id, &names, exp);
             } else if r < 85 {
@@ -1005,35 +1077,44 @@ impl Area for Tls {
                         }
                     }
                     "rm" if w.len() >= 2 => {
-                        let id: usize = w[1].parse().unwrap_or(0);
-                        let Some(asset) = a.certs.get(id) else { return "bad-op".into() };
-                        if !reference.loaded.contains_key(&id) {
-                            r.tags.push("rm:absent".into());
-                        }
-                        let out = im.res.0.lock().unwrap().remove_certificate(&asset.fp);
-                        reference.remove(id);
-                        match out {
-                            Ok(()) => "ok".into(),
-                            Err(_) => "err".into(),
+                        let Some(fr) = fp_ref(w[1]) else { return "bad-op".into() };
+                        r.tags.push(format!("fp-text:{}", w[1].split_once(':').map(|x| x.1).unwrap_or("L")));
+                        // HttpsProxy::remove_certificate: hex::decode first (WrongCertificateFingerprint)
+                        match Fingerprint::from_str(&fr.text) {
+                            Err(_) => {
+                                if fr.decodes {
+                                    r.oracle.push(("fingerprint-text-not-decoded".into(), format!("{:?}", fr.text)));
+                                }
+                                "err".into()
+                            }
+                            Ok(fp) => {
+                                if !fr.id.map(|i| reference.loaded.contains_key(&i)).unwrap_or(false) {
+                                    r.tags.push("rm:absent".into());
+                                }
+                                let out = im.res.0.lock().unwrap().remove_certificate(&fp);
+                                if let Some(id) = fr.id {
+                                    reference.remove(id);
+                                }
+                                match out {
+                                    Ok(()) => "ok".into(),
+                                    Err(_) => "err".into(),
+                                }
+                            }
                         }
                     }
                     "repl" | "replsplit" if w.len() >= 5 => {
                         let id: usize = w[2].parse().unwrap_or(0);
                         let Some(asset) = a.certs.get(id) else { return "bad-op".into() };
-                        let old_id: Option<usize> = w[1].parse().ok();
-                        let old_str = match old_id {
-                            Some(o) => match a.certs.get(o) {
-                                Some(x) => x.fp.to_string(),
-                                None => return "bad-op".into(),
-                            },
-                            None => "not-hex-zz".to_string(),
-                        };
+                        let Some(fr) = fp_ref(w[1]) else { return "bad-op".into() };
+                        r.tags.push(format!("fp-text:{}", w[1].split_once(':').map(|x| x.1).unwrap_or("L")));
+                        let old_id: Option<usize> = fr.id;
+                        let old_str = fr.text.clone();
                         let names = parse_names(w[4]);
                         let exp: i64 = w[3].parse().unwrap_or(0);
                         if old_id == Some(id) {
                             r.tags.push("repl:idempotent".into());
                         } else if old_id.is_none() {
-                            r.tags.push("repl:unparsable-old".into());
+                            r.tags.push(if fr.decodes { "repl:empty-old".into() } else { "repl:unparsable-old".into() });
                         } else if !reference.loaded.contains_key(&old_id.unwrap()) {
                             r.tags.push("repl:absent-old".into());
                         }
@@ -1045,14 +1126,15 @@ impl Area for Tls {
                             let rep = ReplaceCertificate {
                                 address: addr,
                                 new_certificate: ck,
-                                old_fingerprint: old_str,
+                                old_fingerprint: old_str.clone(),
                                 new_expired_at: Some(exp),
                             };
                             let out = im.res.0.lock().unwrap().replace_certificate(&rep);
-                            if old_id != Some(id) && out.is_ok() {
-                                reference.add(id, &names, exp);
-                                if let Some(o) = old_id {
-                                    reference.remove(o);
+                            if out.is_ok() {
+                                reference.replace(old_id, id, &names, exp);
+                                // an acknowledged replace leaves the new certificate loaded
+                                if im.res.0.lock().unwrap().get_certificate(&asset.fp).is_none() {
+                                    r.oracle.push(("acknowledged-replace-unloads-certificate".into(), format!("replace_certificate(old = {:?}, new = certificate {id}) answered Ok but certificate {id} is not in the store", old_str)));
                                 }
                             }
                             out
@@ -1065,7 +1147,7 @@ impl Area for Tls {
                             });
                             if let Err(e) = parsed {
                                 Err(e)
-                            } else if old_id == Some(id) {
+                            } else if Fingerprint::from_str(&old_str).ok().as_ref() == Some(&asset.fp) {
                                 mid_dump = Some((grid.iter().map(|n| im.probe(n).0).collect(), reference.clone()));
                                 Ok(asset.fp.clone())
                             } else {
@@ -1074,9 +1156,11 @@ impl Area for Tls {
                                 if out.is_ok() {
                                     reference.add(id, &names, exp);
                                     mid_dump = Some((grid.iter().map(|n| im.probe(n).0).collect(), reference.clone()));
-                                    if let Some(o) = old_id {
-                                        let _ = im.res.0.lock().unwrap().remove_certificate(&a.certs[o].fp);
-                                        reference.remove(o);
+                                    if let Ok(ofp) = Fingerprint::from_str(&old_str) {
+                                        let _ = im.res.0.lock().unwrap().remove_certificate(&ofp);
+                                        if let Some(o) = old_id {
+                                            reference.remove(o);
+                                        }
                                     }
                                 }
                                 out
@@ -1088,7 +1172,7 @@ impl Area for Tls {
                         }
                     }
                     "replbad" if w.len() >= 2 => {
-                        let old_id: Option<usize> = w[1].parse().ok();
+                        let old_id: Option<usize> = fp_ref(w[1]).and_then(|f| f.id);
                         let rep = ReplaceCertificate {
                             address: addr,
                             new_certificate: CertificateAndKey {
@@ -1202,7 +1286,7 @@ impl Area for Tls {
                 }
                 match sid {
                     Some(id) => {
-                        let removed_now = matches!(w[0], "rm") && w[1].parse::<usize>().ok() == Some(id);
+                        let removed_now = matches!(w[0], "rm") && fp_ref(w[1]).and_then(|f| f.id) == Some(id);
                         if !reference.loaded.contains_key(&id) {
                             let class = if removed_now || !before.loaded.contains_key(&id) { "removed-still-served" } else { "served-not-loaded" };
                             r.oracle.push((class.into(), format!("{ns}: certificate {id} is served but not loaded")));
@@ -1425,7 +1509,7 @@ impl Area for TlsE2e {
     }
     fn rule(&self) -> String {
         format!(
-            "a real worker per case (HTTPS listener with strict SNI binding, one frontend per probe host, one shared backend), histories of AddCertificate / RemoveCertificate / ReplaceCertificate over the command channel with the {} PEM assets under overridden lower-case names (exact / wildcard, overlapping) and expirations; after every op every grid name (<=6) is probed by a real TLS client: the leaf certificate presented (or the default certificate); req ops send an HTTP/1.1 request whose Host is the SNI, a sibling covered by the same wildcard, the apex, another tenant, with port / upper case / trailing dot: 200 = routed to the backend, 421 = refused; compared line by line with the model (resolve + snapshot + gate); non-trivial = two loaded certificates competed for a probe and a remove/replace followed; distinct = distinct op sequence",
+            "a real worker per case (HTTPS listener with strict SNI binding, one frontend per probe host, one shared backend), histories of AddCertificate / RemoveCertificate / ReplaceCertificate over the command channel (fingerprints in lower / UPPER / mixed-case hex, or undecodable) with the {} PEM assets under overridden lower-case names (exact / wildcard, overlapping) and expirations; after every op every grid name (<=6) is probed by a real TLS client: the leaf certificate presented (or the default certificate); req ops send an HTTP/1.1 request whose Host is the SNI, a sibling covered by the same wildcard, the apex, another tenant, with port / upper case / trailing dot: 200 = routed to the backend, 421 = refused; compared line by line with the model (resolve + snapshot + gate); non-trivial = two loaded certificates competed for a probe and a remove/replace followed; distinct = distinct op sequence",
             assets().certs.len()
         )
     }
@@ -1456,6 +1540,10 @@ impl Area for TlsE2e {
             format!("route {www} {}", h("test.example.org.")),
             format!("repl 0 2 50 {wild} -"),
             format!("route {deep} {}", h("a.b.example.org")),
+            format!("repl 2:U 2 50 {wild} -"),
+            format!("repl 2:M 2 50 {wild} -"),
+            format!("rm x:n"),
+            format!("rm 2:U"),
         ],
         // WITNESS certificate-name-panics-worker on a running worker
         vec![
@@ -1512,8 +1600,12 @@ impl Area for TlsE2e {
                 reference.add(id, &names, exp);
             } else if r < 50 {
                 let id = if !stored.is_empty() && rng.chance(5, 6) { *rng.pick(&stored) } else { *rng.pick(&pool) as usize };
-                ops.push(format!("rm {id}"));
-                reference.remove(id);
+                if rng.chance(1, 10) {
+                    ops.push(format!("rm {}", bad_fp_tok(rng)));
+                } else {
+                    ops.push(format!("rm {}", fp_tok(rng, id)));
+                    reference.remove(id);
+                }
             } else if r < 65 {
                 let old = if stored.is_empty() || rng.chance(1, 8) { *rng.pick(&pool) as usize } else { *rng.pick(&stored) };
                 let id = *rng.pick(&pool) as usize;
@@ -1522,8 +1614,13 @@ impl Area for TlsE2e {
                     _ => pick_names(rng, &uni),
                 };
                 let exp = *rng.pick(&exps);
-                ops.push(format!("repl {old} {id} {exp} {} -", names_field(&names)));
-                reference.replace(Some(old), id, &names, exp);
+                if rng.chance(1, 10) {
+                    ops.push(format!("repl {} {id} {exp} {} -", bad_fp_tok(rng), names_field(&names)));
+                    reference.replace(None, id, &names, exp);
+                } else {
+                    ops.push(format!("repl {} {id} {exp} {} -", fp_tok(rng, old), names_field(&names)));
+                    reference.replace(Some(old), id, &names, exp);
+                }
             } else {
                 let mut sni = rng.pick(&grid).clone();
                 for _ in 0..4 {
@@ -1632,30 +1729,39 @@ impl Area for TlsE2e {
                     st
                 }
                 "rm" if w.len() >= 2 => {
-                    let id: usize = w[1].parse().unwrap_or(0);
+                    let Some(fr) = fp_ref(w[1]) else {
+                        r.out.push("bad-op".into());
+                        continue;
+                    };
+                    r.tags.push(format!("fp-text:{}", w[1].split_once(':').map(|x| x.1).unwrap_or("L")));
                     let st = status_of(wk, RequestType::RemoveCertificate(RemoveCertificate {
                         address: l.into(),
-                        fingerprint: a.certs[id].fp.to_string(),
+                        fingerprint: fr.text.clone(),
                     }));
                     if st == "ok" {
-                        reference.remove(id);
+                        if let Some(id) = fr.id {
+                            reference.remove(id);
+                        }
                     }
                     st
                 }
                 "repl" if w.len() >= 5 => {
-                    let old: usize = w[1].parse().unwrap_or(0);
+                    let Some(fr) = fp_ref(w[1]) else {
+                        r.out.push("bad-op".into());
+                        continue;
+                    };
+                    r.tags.push(format!("fp-text:{}", w[1].split_once(':').map(|x| x.1).unwrap_or("L")));
                     let id: usize = w[2].parse().unwrap_or(0);
                     let names = parse_names(w[4]);
                     let exp: i64 = w[3].parse().unwrap_or(0);
                     let st = status_of(wk, RequestType::ReplaceCertificate(ReplaceCertificate {
                         address: l.into(),
                         new_certificate: cert_and_key(&a.certs[id], &names, false),
-                        old_fingerprint: a.certs[old].fp.to_string(),
+                        old_fingerprint: fr.text.clone(),
                         new_expired_at: Some(exp),
                     }));
-                    if st == "ok" && old != id {
-                        reference.add(id, &names, exp);
-                        reference.remove(old);
+                    if st == "ok" {
+                        reference.replace(fr.id, id, &names, exp);
                     }
                     st
                 }
